@@ -3,6 +3,7 @@ package main
 import (
 	"encoding/json"
 	"fmt"
+	"math/rand"
 	"net/http"
 	"net/http/httptest"
 	"net/url"
@@ -175,5 +176,138 @@ func rcacheReplay(s *Summary, raw json.RawMessage) {
 			bad("cache-fill", fmt.Sprintf("model: answered from the cache, but the router stored %v", sets))
 			return
 		}
+	}
+}
+
+// ---- family "rcacherec": recorder for spec/trace/TraceRouterCache.tla --------------------------------------------
+
+func init() {
+	families["rcacherec"] = &family{record: rcacheRecord}
+}
+
+func rcacheRecord(s *Summary, rng *rand.Rand, n int, out *traceWriter) {
+	type entry struct {
+		pat pattern
+		ms  []string
+		idx int
+	}
+	type scen struct {
+		routes []entry
+		reqs   [][2]string
+	}
+	pool := []string{}
+	paths := map[string]bool{}
+	scens := make([]scen, n)
+	for i := range scens {
+		nr := 3 + rng.Intn(6)
+		static := map[string]bool{}
+		for len(scens[i].routes) < nr {
+			p := genPattern(rng)
+			ms := randMethods(rng)
+			if p.isStatic() {
+				clash := false
+				for _, m := range ms {
+					clash = clash || static[m+p.render(true)]
+				}
+				if clash {
+					continue
+				}
+				for _, m := range ms {
+					static[m+p.render(true)] = true
+				}
+			}
+			pool = append(pool, p.render(false))
+			scens[i].routes = append(scens[i].routes, entry{p, ms, len(pool)})
+		}
+		// a small request alphabet, so that requests repeat
+		for len(scens[i].reqs) < 8+rng.Intn(7) {
+			e := scens[i].routes[rng.Intn(nr)]
+			path := e.pat.instantiate(rng)
+			if rng.Intn(4) == 0 {
+				path = mutatePath(rng, path)
+			}
+			path = normalPath(path)
+			if len(path) > 14 {
+				path = normalPath(path[:14])
+			}
+			m := e.ms[rng.Intn(len(e.ms))]
+			switch rng.Intn(6) {
+			case 0:
+				m = "HEAD"
+			case 1:
+				m = nineMethods[rng.Intn(9)]
+			}
+			scens[i].reqs = append(scens[i].reqs, [2]string{m, path})
+			paths[path] = true
+		}
+	}
+	plist := [][]string{}
+	for p := range paths {
+		plist = append(plist, chars(p))
+	}
+	out.emit(map[string]any{"op": "hdr", "pool": pool, "paths": plist})
+	for _, sc := range scens {
+		hmna, hfb, capN := rng.Intn(2) == 0, rng.Intn(2) == 0, rng.Intn(6)
+		out.emit(map[string]any{"op": "reset", "hmna": hmna, "hfb": hfb, "cap": capN})
+		build := func(cached bool) (*rux.Router, []*rux.Route) {
+			opts := []func(*rux.Router){}
+			if hmna {
+				opts = append(opts, rux.HandleMethodNotAllowed)
+			}
+			if hfb {
+				opts = append(opts, rux.HandleFallbackRoute)
+			}
+			if cached {
+				opts = append(opts, rux.CachingWithNum(uint16(capN)))
+			}
+			r := rux.New(opts...)
+			rts := []*rux.Route{}
+			for i, e := range sc.routes {
+				tag := fmt.Sprintf("r%d", i+1)
+				rts = append(rts, r.AddNamed(tag, e.pat.render(true), func(cx *rux.Context) { cx.Text(200, tag+"|"+paramsTag(cx.Params)) }, e.ms...))
+			}
+			return r, rts
+		}
+		cachedR, _ := build(true)
+		plainR, _ := build(false)
+		for _, e := range sc.routes {
+			out.emit(map[string]any{"op": "reg", "p": e.idx, "ms": e.ms, "text": e.pat.render(true)})
+		}
+		nq := 100 + rng.Intn(100)
+		for q := 0; q < nq; q++ {
+			rq := sc.reqs[rng.Intn(len(sc.reqs))]
+			c1, b1, a1, p1 := rcServe(cachedR, rq[0], rq[1])
+			c2, b2, a2, p2 := rcServe(plainR, rq[0], rq[1])
+			s.Compared++
+			if p1 != nil || p2 != nil || c1 != c2 || b1 != b2 || a1 != a2 {
+				s.mismatch(map[string]any{"kind": "rcache", "aspect": "transparency", "what": fmt.Sprintf(
+					"%s %s: caching router %d %q Allow=%q (panic %v), cache-less twin %d %q Allow=%q (panic %v)", rq[0], rq[1], c1, b1, a1, p1, c2, b2, a2, p2)}, nil)
+			}
+			ev := map[string]any{"op": "req", "m": rq[0], "path": chars(rq[1]), "p": rq[1]}
+			switch {
+			case c1 == 200 && strings.HasPrefix(b1, "r"):
+				idx := 0
+				fmt.Sscanf(b1, "r%d|", &idx)
+				ev["kind"], ev["r"] = "route", idx
+			case a1 != "":
+				ev["kind"], ev["allow"] = "notallowed", strings.Split(a1, ", ")
+			default:
+				ev["kind"] = "notfound"
+			}
+			keys := [][2]any{}
+			if cc := cachedR.VerifCache(); cc != nil {
+				for _, k := range cc.VerifKeys() {
+					i := strings.IndexByte(k, '/')
+					if i < 0 {
+						keys = append(keys, [2]any{k, []string{"?"}})
+					} else {
+						keys = append(keys, [2]any{k[:i], chars(k[i:])})
+					}
+				}
+			}
+			ev["keys"] = keys
+			out.emit(ev)
+		}
+		s.Cases++
 	}
 }
